@@ -131,6 +131,7 @@ type LFacts struct {
 	roleSplit map[string]map[string]string
 	Unres     map[ssa.Instruction]bool // dynamic calls nothing resolved
 	rootsOf   map[int]map[string]bool
+	wrappers  map[*ssa.Function]*wrapSummary
 }
 
 // walkable: bodies the walk descends into. The standard library and the compression/stream
@@ -162,6 +163,27 @@ func (L *LFacts) walkable(fn *ssa.Function) bool {
 // expression (address of field f of struct S → "S.f"), never listed.
 func (L *LFacts) classifyLock(cc *ssa.CallCommon, in *ssa.Function) (lockOp, bool) {
 	sc := cc.StaticCallee()
+	if sc != nil && !cc.IsInvoke() {
+		// a straight-line unexported helper whose only effect is one lock operation stands for
+		// that operation (rlatch(lock, chunk), c.lockShared() …)
+		if w := L.lockWrapper(sc); w != nil {
+			op := w.op
+			op.Recv, op.Shard = nil, nil
+			if w.recvParam >= 0 && w.recvParam < len(cc.Args) {
+				op.Recv = cc.Args[w.recvParam]
+			}
+			switch {
+			case w.shardParam >= 0 && w.shardParam < len(cc.Args) && !w.shardViaChunkAt:
+				op.Shard = cc.Args[w.shardParam]
+			case w.shardParam >= 0 && w.shardViaChunkAt && w.returnsShard:
+				op.Shard = w.callValue(cc, in)
+			}
+			if op.Name == "latch" && op.Shard == nil {
+				return lockOp{}, false // a latch operation whose shard cannot be named in the caller is walked, not summarised
+			}
+			return op, true
+		}
+	}
 	if sc == nil || sc.Signature.Recv() == nil {
 		return lockOp{}, false
 	}
@@ -1046,4 +1068,127 @@ func (L *LFacts) RootsOf(ctx *LCtx) []string {
 		}
 	}
 	return sortedKeys(L.rootsOf[ctx.ID])
+}
+
+// wrapSummary: a lock wrapper — an unexported, straight-line library helper that performs exactly
+// one lock operation on a lock reached from its parameters and otherwise only computes (conversions,
+// commit.ChunkAt, field loads). The operation's receiver and shard are named by parameter index so
+// that a call of the wrapper can be read as the operation itself.
+type wrapSummary struct {
+	fn              *ssa.Function
+	op              lockOp
+	recvParam       int
+	shardParam      int
+	shardViaChunkAt bool // shard = commit.ChunkAt(param)
+	returnsShard    bool // … and the wrapper returns that block number as its only result
+}
+
+// callValue: the call instruction (as a value) in function `in` whose CallCommon is cc.
+func (w *wrapSummary) callValue(cc *ssa.CallCommon, in *ssa.Function) ssa.Value {
+	var out ssa.Value
+	if in == nil {
+		return nil
+	}
+	allInstrs(in, func(ins ssa.Instruction) {
+		if c, ok := ins.(*ssa.Call); ok && &c.Call == cc {
+			out = c
+		}
+	})
+	return out
+}
+
+func (L *LFacts) lockWrapper(fn *ssa.Function) *wrapSummary {
+	fn = originOf(fn)
+	if L.wrappers == nil {
+		L.wrappers = map[*ssa.Function]*wrapSummary{}
+	}
+	if w, done := L.wrappers[fn]; done {
+		return w
+	}
+	L.wrappers[fn] = nil // in progress / not a wrapper
+	if !isHelper(fn) || len(fn.Blocks) != 1 || len(fn.AnonFuncs) > 0 {
+		return nil
+	}
+	paramIdx := func(v ssa.Value) int {
+		for i, p := range fn.Params {
+			if p == v {
+				return i
+			}
+		}
+		return -1
+	}
+	// base parameter of an expression built from field addresses, loads and conversions
+	var baseParam func(v ssa.Value, depth int) int
+	baseParam = func(v ssa.Value, depth int) int {
+		if depth > 6 {
+			return -1
+		}
+		v = strip(v)
+		if i := paramIdx(v); i >= 0 {
+			return i
+		}
+		switch x := v.(type) {
+		case *ssa.UnOp:
+			if x.Op == token.MUL {
+				return baseParam(x.X, depth+1)
+			}
+		case *ssa.FieldAddr:
+			return baseParam(x.X, depth+1)
+		case *ssa.Field:
+			return baseParam(x.X, depth+1)
+		}
+		return -1
+	}
+	var inner *lockOp
+	var chunkAt []*ssa.Call
+	ok := true
+	for _, ins := range fn.Blocks[0].Instrs {
+		switch x := ins.(type) {
+		case *ssa.Call:
+			if op, isL := L.classifyLock(&x.Call, fn); isL {
+				if inner != nil {
+					ok = false
+				}
+				o := op
+				inner = &o
+				continue
+			}
+			if calleeIs(&x.Call, "commit.ChunkAt") {
+				chunkAt = append(chunkAt, x)
+				continue
+			}
+			ok = false
+		case *ssa.Convert, *ssa.ChangeType, *ssa.FieldAddr, *ssa.Field, *ssa.Return, *ssa.DebugRef:
+		case *ssa.UnOp:
+			if x.Op != token.MUL {
+				ok = false
+			}
+		default:
+			ok = false
+		}
+	}
+	if !ok || inner == nil {
+		return nil
+	}
+	w := &wrapSummary{fn: fn, op: *inner, recvParam: -1, shardParam: -1}
+	if inner.Recv != nil {
+		w.recvParam = baseParam(inner.Recv, 0)
+	}
+	if inner.Shard != nil {
+		sh := strip(inner.Shard)
+		if i := paramIdx(sh); i >= 0 {
+			w.shardParam = i
+		} else if c, isC := sh.(*ssa.Call); isC && calleeIs(&c.Call, "commit.ChunkAt") {
+			if i := paramIdx(strip(c.Call.Args[0])); i >= 0 {
+				w.shardParam, w.shardViaChunkAt = i, true
+				ret, _ := fn.Blocks[0].Instrs[len(fn.Blocks[0].Instrs)-1].(*ssa.Return)
+				w.returnsShard = ret != nil && len(ret.Results) == 1 && strip(ret.Results[0]) == sh
+			}
+		}
+	}
+	if w.op.Name == "latch" && w.shardParam < 0 {
+		return nil
+	}
+	L.wrappers[fn] = w
+	return w
 }
